@@ -67,7 +67,7 @@ def build(scn, order, history, oracle=None, upto=None):
 
     core.reset_world()
     core.set_order(order)
-    NamespaceManager.default = scn.policy
+    core.sdn().namespace_manager.default = scn.policy
     w = World()
     if oracle is not None:
         oracle.before_seed(scn)
